@@ -19,8 +19,17 @@ def main():
         print(f'no check for {prop}')
         sys.exit(2)
     fn(run)
+    level = 'proof'
+    try:
+        import json
+        man = json.load(open(os.path.join(core.VERIF, 'MANIFEST.json')))
+        for c in man['checks']:
+            if c['property_id'] == prop:
+                level = c['level_claimed']['category']
+    except Exception:
+        pass
     code = core.finish(
-        run, 'model_checking' if False else 'proof',
+        run, level,
         explanation=props.EXPLAIN.get(prop, ''),
         trusted_base=['rustc', 'z3 (nlsat / EUF)', 'sympy diff/series', 'symbolic scalar S (validated '
                       'bit-for-bit against the native f64 instantiation on every run)',
